@@ -312,15 +312,36 @@ def dkr_case(rng):
     return [{k: sample[k] for k in keys[:rng.randint(3, 7)]}], {"dkr": pats}, ["--dkr"] + pats
 
 
+def empty_object_case(rng):
+    """an empty object as a whole document / as what a lookup selects is a sample like any other (the fields of the other
+    samples become optional)"""
+    full = {"id": 1, "name": "x", "tags": [1]}
+    kind = rng.choice(["second", "first", "lookup", "only-empties"])
+    if kind == "second":
+        return [full, {}], {"e0.json": full, "e1.json": {}}, ["-m", "Root", "e0.json", "-m", "Root", "e1.json"]
+    if kind == "first":
+        return [{}, full], {"e0.json": {}, "e1.json": full}, ["-m", "Root", "e0.json", "-m", "Root", "e1.json"]
+    if kind == "lookup":
+        return [full, {}], {"e0.json": {"result": {"item": full}}, "e1.json": {"result": {"item": {}}}}, \
+            ["-m", "Root", "result.item", "e0.json", "-l", "Root", "result.item", "e1.json"]
+    return [{}, {}], {"e0.json": {}, "e1.json": [{}]}, ["-m", "Root", "e0.json", "-m", "Root", "e1.json"]
+
+
 def falsify(ctx):
     rng = ctx.rng("fals")
     n = ctx.n(90, 1800)
     with tempfile.TemporaryDirectory(prefix="j2m-c16-") as root:
         jobs, metas = [], []
-        for i in range(ctx.n(16, 120)):
+        for i in range(ctx.n(24, 150)):
             d = os.path.join(root, "b%d" % i)
             os.makedirs(d)
-            samples, opts, oargv = boundary_case(rng) if i % 2 == 0 else dkr_case(rng)
+            if i % 3 == 2:
+                samples, files_e, argv_e = empty_object_case(rng)
+                clitools.write_files(d, files_e)
+                jobs.append((argv_e, d, ctx.repo))
+                metas.append((samples, files_e, argv_e, {}, False, "empty-object", d))
+                continue
+            samples, opts, oargv = boundary_case(rng) if i % 3 == 0 else dkr_case(rng)
             clitools.write_files(d, {"b.json": samples})
             full = ["-m", "Root", "b.json"] + oargv
             jobs.append((full, d, ctx.repo))
